@@ -134,6 +134,8 @@ struct Pipeline {
     size_t nsets_header = 0;             // sets contained in the header of the current output (valid once it has blocks)
     unsigned next_out = 0;
     const char* ext = "";
+    unsigned stale_parts = 0;
+    std::set<std::string> stale_part_names;
     int cur_fd = -1;
     unsigned late_used = 0;
     bool dead = false;
@@ -404,10 +406,20 @@ struct Pipeline {
             if (b.bp_index != m.set) V("C01", "I01/block-parameters-index(reader)", where);
             if (b.qr.size() != m.qr.size()) V("C01", "I01/qr-count(reader)", where + ": " + std::to_string(b.qr.size()) + " vs model " + std::to_string(m.qr.size()));
             else for (size_t k = 0; k < b.qr.size(); k++)
-                if (!qr_equal(b.qr[k], m.qr[k], m.qr_alt[k])) { V("C01", "I01/qr-content(reader)", where + " qr " + std::to_string(k) + ": " + ref::first_diff(m.qr[k], b.qr[k])); break; }
+                if (!qr_equal(b.qr[k], m.qr[k], m.qr_alt[k])) {
+                    std::string d = ref::first_diff(m.qr[k], b.qr[k]);
+                    V("C01", "I01/qr-content(reader)", where + " qr " + std::to_string(k) + ": " + d);
+                    if (d.find("'ts'") != std::string::npos) V("C17", "I20/record-time-not-recovered(reader)", where + " qr " + std::to_string(k) + ": " + d);
+                    break;
+                }
             if (b.mm.size() != m.mm.size()) V("C01", "I01/mm-count(reader)", where);
             else for (size_t k = 0; k < b.mm.size(); k++)
-                if (b.mm[k] != m.mm[k]) { V("C01", "I01/mm-content(reader)", where + " mm " + std::to_string(k) + ": " + ref::first_diff(m.mm[k], b.mm[k])); break; }
+                if (b.mm[k] != m.mm[k]) {
+                    std::string d = ref::first_diff(m.mm[k], b.mm[k]);
+                    V("C01", "I01/mm-content(reader)", where + " mm " + std::to_string(k) + ": " + d);
+                    if (d.find("'ts'") != std::string::npos) V("C17", "I20/record-time-not-recovered(reader)", where + " mm " + std::to_string(k) + ": " + d);
+                    break;
+                }
             if (b.aec != m.aec) V("C01", "I01/aec-content(reader)", where + ": address-event counts differ from the model");
             if (b.has_stats != m.has_stats && !(m.has_stats && m.stats.empty()) && !(b.has_stats && b.stats.empty()))
                 V("C01", "I01/statistics-presence(reader)", where);
@@ -746,10 +758,22 @@ struct Pipeline {
                 old_hash[name] = fnv1a(content);
             }
         }
+        if (!s.fd_output && !s.long_run && (mix_str(cx.seed, "stale-part") % 3) == 0) {
+            // leftovers of an earlier run that was killed: non-empty '<name><ext>.part' files under names this scenario will open
+            Rng r(mix_str(cx.seed, "stale-part-files"));
+            for (unsigned k = 0; k < 6; k++) {
+                if (!r.coin()) continue;
+                std::string name = (k < 4 ? out_name(k) : "/sim/old" + std::to_string(k - 4)) + ext + ".part";
+                F.put(name, "stale partial output of a killed run " + gen::bytes(r, r.range(1, 5000)));
+                stale_part_names.insert(name);
+                stale_parts++;
+            }
+            if (stale_parts) { cx.tag("stale-part-files"); cx.ctr->add("probe.stale_part_file_present"); }
+        }
         if (cx.describe) {
             cx.description = "swarm{compression=" + std::to_string(s.compression) + " fd=" + std::to_string(s.fd_output) + " sets=" + std::to_string(s.sets.size()) +
                              " late=" + std::to_string(s.late_sets.size()) + " density=" + std::to_string(s.density_pm) + " pool=" + std::to_string(s.pool) + " private=" +
-                             std::to_string(s.private_version) + " oldfiles=" + std::to_string(old_files.size()) + "}";
+                             std::to_string(s.private_version) + " oldfiles=" + std::to_string(old_files.size()) + " stale-parts=" + std::to_string(stale_parts) + "}";
             for (size_t k = 0; k < s.sets.size(); k++) {
                 auto& sp = s.sets[k].storage_parameters;
                 cx.description += " set" + std::to_string(k) + "{tps=" + std::to_string(sp.ticks_per_second) + " max=" + std::to_string(sp.max_block_items) + " hints=" +
@@ -800,6 +824,7 @@ struct Pipeline {
             bool known = false;
             for (auto& mo : M.closed) if (mo.name == path) known = true;
             for (auto& of : old_files) if (of == path) known = true;
+            if (stale_part_names.count(path)) known = true;   // a leftover that was there before the run (never opened, or its output still open)
             if (!known) V("C13", "I12/unexpected-file", "file " + path + " exists but no rotation produced it");
         }
         if (F.any_open()) { V("C13", "I11/descriptor-leak", "an output is still open after the exporter was destroyed"); F.close_all_leaked(); }
